@@ -25,7 +25,7 @@ import (
 func TestVerifC20(t *testing.T) {
 	vfMain(t, vfCheck{
 		ID: "C20", Level: "fault_enumeration",
-		Rule:        "for each of ~47 Client/File operations (single-request calls, composite calls, multi-chunk transfers under both concurrency settings, transfers in one-byte packets) and each request the operation issues (first 8), the valid reply is replaced by: a well-framed cut at every byte, every 4-byte window replaced by hostile lengths/counts {0,1,n-1,n+1,2^20,2^31-1,2^32-1} (quick: 3 of the 7 per window), each other reply type (ATTRS also with sizes 2^63-1, 2^63, 2^64-2, 2^64-1), a wrong id, random bodies, an over-long DATA. A class is (operation, request index, reply type, mutation kind).",
+		Rule:        "for each of ~47 Client/File operations (single-request calls, composite calls, multi-chunk transfers under both concurrency settings, transfers in one-byte packets) and each request the operation issues (first 8), the valid reply is replaced by: a well-framed cut at every byte, every 4-byte window replaced by hostile lengths/counts {0,1,n-1,n+1,2^20,2^31-1,2^32-1} (quick: 3 of the 7 per window), each other reply type (ATTRS also with sizes 2^63-1, 2^63, 2^64-2, 2^64-1), a wrong id, random bodies, an over-long DATA, a length prefix promising up to 2^32-1 bytes; every process first runs a session with MaxPacketUnchecked(2^30) (no package-level state may carry over). A class is (operation, request index, reply type, mutation kind).",
 		Assumptions: []string{"allocation bound per operation: 64 x bytes received + 3 MiB (client configured with 1 KiB packets and 4 concurrent requests so that legitimate buffers stay small)", "plain build (allocation meter); background panics are attributed through the child journal"},
 		Units:       func(tier vfTier, seed uint64) int { return len(c20Ops()) },
 		Shards: func(tier vfTier) int {
@@ -213,6 +213,7 @@ func c20Valid(req vfPkt, readdirCalls *int) vfPkt {
 type c20Mut struct {
 	kind string
 	body []byte // replacement reply body (type+payload); nil = no mutation
+	raw  bool   // body is a complete byte sequence for the wire (its own length prefix included)
 }
 
 func c20Mutations(u *vfUnit, valid vfPkt) []c20Mut {
@@ -223,7 +224,7 @@ func c20Mutations(u *vfUnit, valid vfPkt) []c20Mut {
 		if u.Tier == vfQuick && len(body) > 60 && !(k < 24 || k > len(body)-6 || r.Intn(100) < 25) {
 			continue
 		}
-		out = append(out, c20Mut{fmt.Sprintf("cut@%d", k), append([]byte(nil), body[:k]...)})
+		out = append(out, c20Mut{kind: fmt.Sprintf("cut@%d", k), body: append([]byte(nil), body[:k]...)})
 	}
 	for k := 1; k+4 <= len(body); k++ {
 		if u.Tier == vfQuick && len(body) > 80 && k > 40 && r.Intn(100) < 60 {
@@ -239,7 +240,7 @@ func c20Mutations(u *vfUnit, valid vfPkt) []c20Mut {
 			}
 			m := append([]byte(nil), body...)
 			binary.BigEndian.PutUint32(m[k:], h)
-			out = append(out, c20Mut{fmt.Sprintf("win@%d=%s", k, c20HostileNames[hi]), m})
+			out = append(out, c20Mut{kind: fmt.Sprintf("win@%d=%s", k, c20HostileNames[hi]), body: m})
 		}
 	}
 	// other reply types (valid bodies) with the same id
@@ -258,18 +259,24 @@ func c20Mutations(u *vfUnit, valid vfPkt) []c20Mut {
 		{Type: rfVersion, Version: 3},
 	}
 	for i, s := range subs {
-		out = append(out, c20Mut{fmt.Sprintf("type-sub-%s-%d", rfTypeName(s.Type), i), s.Body()})
+		out = append(out, c20Mut{kind: fmt.Sprintf("type-sub-%s-%d", rfTypeName(s.Type), i), body: s.Body()})
 	}
 	for _, t := range []byte{0, 1, 3, 100, 106, 199, 200, 255} {
 		m := append([]byte(nil), body...)
 		m[0] = t
-		out = append(out, c20Mut{fmt.Sprintf("type-byte-%d", t), m})
+		out = append(out, c20Mut{kind: fmt.Sprintf("type-byte-%d", t), body: m})
 	}
 	// wrong id
 	for _, d := range []uint32{1, 0x80000000} {
 		w := valid
 		w.ID += d
-		out = append(out, c20Mut{"wrong-id", w.Body()})
+		out = append(out, c20Mut{kind: "wrong-id", body: w.Body()})
+	}
+	// a length prefix that promises far more than a frame may hold (and than is ever sent)
+	for _, l := range []uint32{262145, 1 << 20, 1 << 28, 1 << 30, 1<<31 - 1, 1<<32 - 1} {
+		lie := binary.BigEndian.AppendUint32(nil, l)
+		lie = append(lie, body...)
+		out = append(out, c20Mut{kind: "frame-length-lie", body: lie, raw: true})
 	}
 	// random bodies
 	for i := 0; i < 12; i++ {
@@ -277,7 +284,7 @@ func c20Mutations(u *vfUnit, valid vfPkt) []c20Mut {
 		if i%2 == 0 && len(m) >= 5 {
 			binary.BigEndian.PutUint32(m[1:], valid.ID)
 		}
-		out = append(out, c20Mut{"random", m})
+		out = append(out, c20Mut{kind: "random", body: m})
 	}
 	return out
 }
@@ -301,7 +308,7 @@ type c20Obs struct {
 	leaks    []string
 }
 
-func c20Once(u *vfUnit, op c20Op, target int, mut []byte) c20Obs {
+func c20Once(u *vfUnit, op c20Op, target int, mut []byte, rawFrame bool) c20Obs {
 	var obs c20Obs
 	var mu sync.Mutex
 	seen := 0
@@ -320,6 +327,9 @@ func c20Once(u *vfUnit, op c20Op, target int, mut []byte) c20Obs {
 			}
 			if idx == target && mut != nil && !muted {
 				muted = true
+				if rawFrame {
+					return mut
+				}
 				return vfFrame(mut)
 			}
 			return v.Frame()
@@ -384,7 +394,13 @@ func c20Run(u *vfUnit) {
 	op := ops[u.Index%len(ops)]
 	u.SetAdd("operations", op.name)
 	// dry run: which requests does the operation issue, and what are the valid replies?
-	dry := c20Once(u, op, -1, nil)
+	// Package-level state must not leak from one session into the next: before anything else this process
+	// runs one ordinary session with the largest packet size a caller can ask for.
+	if pre := c20Once(u, c20Op{"prelude-Stat", []ClientOption{MaxPacketUnchecked(1 << 30)}, func(c *Client) error { _, err := c.Stat("/file"); return err }}, -1, nil, false); pre.panicked != nil || pre.stuck != "" {
+		u.Violation("valid-replies:prelude", fmt.Sprintf("prelude session: panic=%v stuck=%q", pre.panicked, vfTrim(pre.stuck, 300)), nil)
+		return
+	}
+	dry := c20Once(u, op, -1, nil, false)
 	if dry.panicked != nil || dry.stuck != "" || dry.follow != "" {
 		u.Violation("valid-replies:"+op.name, fmt.Sprintf("%s with all-valid replies: panic=%v stuck=%q follow=%q", op.name, dry.panicked, vfTrim(dry.stuck, 300), dry.follow), nil)
 		return
@@ -406,7 +422,7 @@ func c20Run(u *vfUnit) {
 			u.Eval(fmt.Sprintf("%s/%d/%s/%s", op.name, k, rfTypeName(valid.Type), mkind))
 			u.Count("mutated_replies", 1)
 			u.SetAdd("mutation_kinds", mkind)
-			obs := c20Once(u, op, k, m.body)
+			obs := c20Once(u, op, k, m.body, m.raw)
 			w := map[string]any{"operation": op.name, "request_index": k, "valid_reply": valid.String(), "mutation": m.kind, "reply_body_hex": fmt.Sprintf("%x", vfTrimB(m.body, 400))}
 			where := fmt.Sprintf("%s, reply to request #%d (valid: %s) replaced by %s", op.name, k, valid, m.kind)
 			if obs.panicked != nil {
